@@ -441,21 +441,19 @@ func c14ImmutableTags(c *core.Ctx) {
 							}
 						}
 					}
-					// string comparisons on the tag parameter, to prune correlated branches
-					if x, op, y, ok := facts.Cmp(cd); ok {
-						if s, isS := facts.ConstString(y); isS && s == "" {
-							tm := facts.Term(x)
-							if op == token.EQL {
-								if t["nonempty:"+tm] {
-									return false
-								}
-								t["empty:"+tm] = true
-							} else if op == token.NEQ {
-								if t["empty:"+tm] {
-									return false
-								}
-								t["nonempty:"+tm] = true
+					// emptiness tests (x == "", len(x) == 0, len(x) > 0 ...), to prune correlated branches
+					if x, isEmpty, ok := facts.EmptyTest(cd); ok {
+						tm := facts.Term(x)
+						if isEmpty {
+							if t["nonempty:"+tm] {
+								return false
 							}
+							t["empty:"+tm] = true
+						} else {
+							if t["empty:"+tm] {
+								return false
+							}
+							t["nonempty:"+tm] = true
 						}
 					}
 				}
@@ -472,6 +470,9 @@ func c14ImmutableTags(c *core.Ctx) {
 					return ok && name == "ImmutableTags"
 				case *ssa.MapUpdate:
 					_, ok := memMapField(x.Map)
+					return ok
+				case *ssa.Lookup:
+					_, ok := memMapField(x.X)
 					return ok
 				case *ssa.Call:
 					if bi, ok := x.Call.Value.(*ssa.Builtin); ok && bi.Name() == "delete" {
